@@ -5,6 +5,7 @@ CONSTANTS
   MaxRank = 3
   Mode = "quantile"
 INVARIANT AcceptedUnderTol
+INVARIANT NothingSurvivesARestart
 INVARIANT TolerancesNeverIncrease
 INVARIANT PosteriorComplete
 CHECK_DEADLOCK FALSE
